@@ -117,6 +117,11 @@ for _t in ("ATOM", "HETATM"):
         for _ch in ("", "A"):
             globals()[f"ws_{_t}_{int(_cf)}{_ch or '_'}"] = _ws(f"{_t}.{int(_cf)}{_ch or '_'}", _t, _cf, _ch)
 
+# a chain id that is a digit (PDB allows chains "1", "2", ...): plain tokenisation is fine (whitespace_tokens below), but
+# pdb2pqr's own reader decides "chain or residue number?" by trying int() and takes the chain for the residue number -
+# known finding W-numeric-chain owns every obligation of this variant
+ws_ATOM_1digit = _ws("ATOM.1digit", "ATOM", True, "1")
+
 
 # ---------------------------------------------------------------- --whitespace: PLAIN white-space tokenisation
 # (the property names any white-space tokeniser, not only pdb2pqr's own reader, which is forgiving about glued fields)
@@ -152,6 +157,7 @@ def _wt(tag, t, cf, ch):
 for _t in ("ATOM", "HETATM"):
     for _cf, _ch in ((False, ""), (True, "A")):
         globals()[f"wt_{_t}_{int(_cf)}{_ch or '_'}"] = _wt(f"{_t}.{int(_cf)}{_ch or '_'}", _t, _cf, _ch)
+wt_ATOM_1digit = _wt("ATOM.1digit", "ATOM", True, "1")      # a digit as chain id: nothing special for a plain tokeniser
 
 
 # ---------------------------------------------------------------- foreign PQR writers: record name glued to the serial number
